@@ -1024,6 +1024,22 @@ fn _update_tx_pool_for_reorg(
         let mut proposals = Vec::new();
         let mut gaps = Vec::new();
 
+        // a reorg may take an id out of the gap without it ever entering the proposal set
+        // (the new branch does not propose it): such an entry goes back to pending, like the
+        // entries whose id left the set
+        let stale_gaps: Vec<ProposalShortId> = tx_pool
+            .pool_map
+            .entries
+            .get_by_status(&Status::Gap)
+            .iter()
+            .map(|entry| entry.inner.proposal_short_id())
+            .filter(|short_id| {
+                !snapshot.proposals().contains_proposed(short_id)
+                    && !snapshot.proposals().contains_gap(short_id)
+            })
+            .collect();
+        tx_pool.remove_by_detached_proposal(stale_gaps.iter());
+
         for entry in tx_pool.pool_map.entries.get_by_status(&Status::Gap) {
             let short_id = entry.inner.proposal_short_id();
             if snapshot.proposals().contains_proposed(&short_id) {
